@@ -228,6 +228,10 @@ def extract_functions(path, specs, preamble="includes"):
             s = m.start()
             while s > 0 and blank[s - 1] not in ";}":
                 s -= 1
+            # never cut before the last preprocessor line that precedes the first function
+            pp = [mm.end() for mm in re.finditer(r"(?m)^[ \t]*#[^\n]*\n", blank[:m.start()])]
+            if pp and pp[-1] > s:
+                s = pp[-1]
             first = s
         pre = src[:first]
         # do not cut in the middle of a preprocessor conditional: keep only complete lines
